@@ -17,10 +17,14 @@ CONSTANTS
   MaxSteps = 1
   StepCap <- Cap1
   EmitDyn = TRUE
+  MaxHist = 0
+  MaxReorders = 0
+  UnitCfgs <- UnitsA
   Times <- TimesA
   Tol <- TolA
 INVARIANT TypeOK
 INVARIANT BoundsAfterSafeStep
 INVARIANT GeneratorIsRhs
+INVARIANT UnitTextRoundTrip
 INVARIANT Emit
 CHECK_DEADLOCK FALSE
